@@ -12,7 +12,7 @@ import itertools
 from typing import Dict, List, Optional, Set, Tuple
 
 from ..db import ProgramDB, FuncInfo, ClassInfo, AnalysisError, unparse, own_nodes, dotted
-from ..facts import own_calls, call_attr, returns_of, fn_params, bind_args, strip_docstring
+from ..facts import own_calls, call_attr, returns_of, fn_params, bind_args, strip_docstring, local_defs
 from ..framework import inst, HOLDS, VIOLATION, UNDECIDED, INFO, Instance
 from ..evalsites import site_model, EvalSite, is_eval_name
 
@@ -375,6 +375,27 @@ def rule_bound_again_truth(db: ProgramDB) -> List[Instance]:
                     p = cfg.find_path(first.id, lambda nd: nd.has_yield, kinds=("n",), blocked=sets_flag)
                     if p is not None or first.has_yield:
                         bad = first
+            # ... and from the VALUE it is bound to: the payload of the wrapper in the row (the wrapper itself is always truthy)
+            if bad is None:
+                defs_ = local_defs(m)
+                bp_ = unparse(t.stmt.test.comparators[0])
+                for e in cfg.succ[t.id]:
+                    if e.kind == "n" and e.label == "T":
+                        reach = cfg.reachable([e.dst], kinds=("n",))
+                        for nid in reach:
+                            nd2 = cfg.nodes[nid]
+                            if sets_flag(nd2) and nd2.lineno <= (t.stmt.body[-1].end_lineno or 10 ** 9):
+                                srcs = [nd2.ast.value] + [d for x in ast.walk(nd2.ast.value) if isinstance(x, ast.Name) for d in defs_.get(x.id, []) if isinstance(d, ast.AST)]
+                                reads_payload = any(isinstance(x, ast.Attribute) and x.attr == "value" and isinstance(x.value, ast.Subscript)
+                                                    and unparse(x.value.value) == bp_ for s_ in srcs for x in ast.walk(s_))
+                                reads_wrapper_only = any(isinstance(x, ast.Subscript) and unparse(x.value) == bp_ for s_ in srcs for x in ast.walk(s_)) and not reads_payload
+                                if reads_wrapper_only:
+                                    out.append(inst("BOUND-AGAIN-TRUTH", VIOLATION, m, f"{m.short}[bound already: truth of the bound VALUE]",
+                                                    f"`{unparse(nd2.ast)}` decides the truth from the wrapper the row holds, which is always truthy, not from the value in it: "
+                                                    f"the second occurrence of one comparison object (or_(and_(c, p), and_(c, q))) always counts as true", line=nd2.lineno))
+                                elif reads_payload:
+                                    out.append(inst("BOUND-AGAIN-TRUTH", HOLDS, m, f"{m.short}[bound already: truth of the bound VALUE]",
+                                                    "the truth is decided from the payload of the bound value", line=nd2.lineno))
             out.append(inst("BOUND-AGAIN-TRUTH", VIOLATION if bad is not None else HOLDS, m, f"{m.short}[bound already]",
                             "the binding is handed on without the truth flag being set: the parent reads what the flag held when the generator was "
                             "entered, so a condition object used twice (f = v.flag; or_(f, and_(f, v.a > 1))) lets through objects for which it is false"
